@@ -41,6 +41,13 @@ var sites = []site{
 	{regexp.MustCompile(`beacon\.\(\*beacon\)\.(Reset|SetIsOrdered)$`), []int{16, 11}},
 	{regexp.MustCompile(`beacon\.\(\*beacon\)\.ReindexExpiration`), []int{12}},
 	{regexp.MustCompile(`beacon\.\(\*beacon\)\.GetManyFrom`), []int{13}},
+	// reads made by the SubscribeToEvents callback in a run with removals (prefix "eventA:")
+	{regexp.MustCompile(`^eventA:.*treasure\.\(\*treasure\)\.GetContent`), []int{70}},
+	{regexp.MustCompile(`^eventA:.*treasure\.\(\*treasure\)\.GetCreatedAt$`), []int{71}},
+	{regexp.MustCompile(`^eventA:.*treasure\.\(\*treasure\)\.GetCreatedBy$`), []int{72}},
+	{regexp.MustCompile(`^eventA:.*treasure\.\(\*treasure\)\.GetModifiedAt$`), []int{73}},
+	{regexp.MustCompile(`^eventA:.*treasure\.\(\*treasure\)\.GetModifiedBy$`), []int{74}},
+	{regexp.MustCompile(`^eventA:.*treasure\.\(\*treasure\)\.GetExpirationTime$`), []int{75}},
 	// reads made by the SubscribeToEvents callback (site names get the prefix "event:")
 	{regexp.MustCompile(`^event:.*treasure\.\(\*treasure\)\.GetContent`), []int{60}},
 	{regexp.MustCompile(`^event:.*treasure\.\(\*treasure\)\.GetCreatedAt$`), []int{61}},
@@ -79,6 +86,7 @@ type rowInfo struct {
 var rowsInfo = map[int]rowInfo{
 	1: {"map", true}, 2: {"map", true}, 3: {"map", true}, 4: {"map", false}, 5: {"map", false}, 6: {"map", false}, 7: {"map", false},
 	14: {"map", false}, 15: {"map", true}, 16: {"map", true},
+	70: {"content", false}, 71: {"createdAt", false}, 72: {"createdBy", false}, 73: {"modifiedAt", false}, 74: {"modifiedBy", false}, 75: {"expiration", false},
 	60: {"content", false}, 61: {"createdAt", false}, 62: {"createdBy", false}, 63: {"modifiedAt", false}, 64: {"modifiedBy", false}, 65: {"expiration", false},
 	45: {"fileName", true}, 46: {"fileName", false}, 47: {"fileName", true},
 	8: {"order", true}, 9: {"order", true}, 10: {"order", true}, 11: {"order", true}, 12: {"order", true}, 13: {"order", false},
@@ -126,7 +134,7 @@ type race struct {
 
 var frameRe = regexp.MustCompile(`^  (\S.*)\(\)$`)
 
-func parseRaces(stderr string) []race {
+func parseRaces(stderr string, removals bool) []race {
 	var out []race
 	parts := strings.Split(stderr, "WARNING: DATA RACE")
 	for _, p := range parts[1:] {
@@ -159,6 +167,9 @@ func parseRaces(stderr string) []race {
 			}
 			if inEvent && strings.Contains(top, "treasure.(*treasure).Get") {
 				top = "event:" + top
+				if removals {
+					top = "eventA:" + strings.TrimPrefix(top, "event:")
+				}
 			}
 			if strings.Contains(b, "FilePointerCallbackFunction") && strings.HasSuffix(top, "BodySetFileName") {
 				top = "filecb:" + top
@@ -221,6 +232,10 @@ func main() {
 		}
 	}
 	seenPairs := map[string]bool{}
+	phaseOf := map[int]string{}
+	for i, r := range runs {
+		phaseOf[i] = r.phase
+	}
 	for ri, rc := range runs {
 		cmd := exec.Command(bin, "--seed", strconv.FormatUint(args.Seed+uint64(ri), 10), "--ms", strconv.Itoa(rc.ms), "--mode", rc.mode, "--phase", rc.phase)
 		cmd.Env = append(os.Environ(), "GORACE=halt_on_error=0")
@@ -292,7 +307,7 @@ func main() {
 				run.Violate(idx, "no request fails", clean("request_error:"+f[1]), tag+": "+l)
 			}
 		}
-		for _, rc := range parseRaces(stderr) {
+		for _, rc := range parseRaces(stderr, phaseOf[ri] == "A") {
 			a, b, ok := mapPair(rc.fa, rc.fb)
 			key := rc.fa + "|" + rc.fb
 			if !ok {
